@@ -115,7 +115,7 @@ def run(ctx):
         allm = list(itertools.product([False, True], repeat=a * b))
         if len(allm) > ctx.budget(24, 600):
             allm = rng.sample(allm, ctx.budget(24, 600))
-        mats += [(a, b, m) for m in allm if any(m)]
+        mats += [(a, b, m) for m in allm if any(m)] + [(a, b, tuple([False] * (a * b)))]
     for (a, b, flat) in mats:
         ncells = max(a, b) + rng.randint(0, 2)
         net = build_net(rng, ncells)
